@@ -46,6 +46,42 @@ Record wcase := mkCase
   { c_cfg : config; c_cfg2 : config; c_inst : list bool; c_str : bool; c_rows : table;
     c_ops : list op; c_obs : list opobs }.
 
+(* Wire form of the observations.  The contents of the servers after an operation are handed over
+   in full or as the difference to the contents after the previous operation (TTLs of entries
+   that stay shortened uniformly by [shift] ms - an OAdv -, keys [del] gone, entries [set] new or
+   changed): a lossless re-encoding done by the renderer (which falls back to [DFull] whenever the
+   difference is not smaller), decoded here before anything is compared or judged.  It only keeps
+   the case terms small: parsing them dominated the cost of a check. *)
+Inductive wdump :=
+| DFull (d : list dump_entry)
+| DDelta (shift : Z) (del : list key) (set : list dump_entry).
+
+Definition has_key (k : key) (l : list dump_entry) : bool :=
+  existsb (fun e : dump_entry => key_eqb k (fst (fst e))) l.
+
+Definition undelta (prev : list dump_entry) (x : wdump) : list dump_entry :=
+  match x with
+  | DFull d => d
+  | DDelta shift del set =>
+    filter (fun e : dump_entry => negb (mem_key (fst (fst e)) del) && negb (has_key (fst (fst e)) set))
+           (map (fun e : dump_entry => let '(k, v, t) := e in (k, v, if t =? 0 then 0 else t - shift)) prev)
+    ++ set
+  end.
+
+Record wobs := mkWO { w_ret : ret; w_qi : Z; w_qp : Z; w_seen : list goval; w_dump : wdump }.
+
+Fixpoint decode (prev : list dump_entry) (l : list wobs) : list opobs :=
+  match l with
+  | [] => []
+  | w :: l' =>
+    let d := undelta prev (w_dump w) in
+    mkOO (w_ret w) (w_qi w) (w_qp w) (w_seen w) d :: decode d l'
+  end.
+
+Definition mkCaseW (cfg cfg2 : config) (insts : list bool) (str : bool) (rows : table) (ops : list op)
+           (wl : list wobs) : wcase :=
+  mkCase cfg cfg2 insts str rows ops (decode [] wl).
+
 (* A case is a list of WORLDS: independent (database, Redis servers, instances) living in one
    process - sharing go-zero's process-wide machinery, above all the cleaner's timing wheel -
    and using the same key strings.  The executor interleaves their operations; every world's
